@@ -23,6 +23,7 @@ DEFAULT_W = dict(
     multias=0.25,        # (given As) several results sharing the As list, one of them being a listed interface itself
     optseq=0.3,          # container options given in another order / repeated (the last value counts)
     selfcycle=0.02,      # a constructor feeding, through several results, the group it consumes
+    dupdep=0.0,          # a failing constructor declaring one dependency several times, drawn with the Invoke's error
     longchain=0.01,      # a dependency chain of 17..45 named values (size thresholds), ending well, badly, nowhere or in itself
     oddkinds=0.02,       # non-pointer implementers (zero values behind interfaces), channel / map / function typed keys
     strmix=0.04,         # a name equal to a group name in use (and vice versa)
@@ -898,6 +899,46 @@ class Gen:
             self.invokers.append((cf, csc))
             self.ops.append({"op": "invoke", "scope": csc, "fn": cf, "info": False})
 
+    # ---- a failing constructor that declares one dependency more than once, drawn with the error of the Invoke
+    def op_dup_dep_viz(self):
+        r = self.r
+        t, vt = r.sample(PT, 2)
+        nm = self.pick_name() if r.random() < 0.4 else ""
+        tag = "d%d" % len(self.fns)
+        nm = nm or (tag if r.random() < 0.5 else "")
+        # the dependency, from a constructor that does not fail
+        pf = self.new_fn([], [u(t)])
+        self.script[str(pf)] = [{"k": "ok", "len": 1, "dt": 0, "eslot": 0}] * 3
+        self.ops.append({"op": "provide", "scope": 0, "fn": pf, "name": nm, "group": "", "as": [], "export": False, "cb": False,
+                         "info": False, "opts": ["name"] if nm else []})
+        one = self.single_in(t, nm)
+        shape = r.randrange(0, 3)
+        if shape == 0:
+            ins = [one, one]
+        elif shape == 1:
+            ins = [one, self.st([self.in_field(), self.field("A", u(t), {"name": nm} if nm else {}), self.field("B", u(t), dict({"optional": "true"}, **({"name": nm} if nm else {})))])]
+        else:
+            ins = [self.st([self.in_field(), self.field("A", u(t), {"name": nm} if nm else {}), self.field("B", u(t), {"name": nm} if nm else {})]), one]
+        how = r.choice(["err", "panic", "missing"])
+        if how == "missing":
+            ins = ins + [self.single_in(vt, "never%d" % len(self.fns))]
+        ff = self.new_fn(ins, [u(vt), u(0)])
+        self.script[str(ff)] = [{"k": "ok" if how == "missing" else how, "len": 1, "dt": 0, "eslot": 0}] * 3
+        self.ops.append({"op": "provide", "scope": 0, "fn": ff, "name": tag, "group": "", "as": [], "export": False, "cb": self.p("cb"),
+                         "info": False, "opts": ["name"]})
+        # sometimes one more level, so that the constructor with the repeated dependency is a transitive failure
+        top_t, top_n = vt, tag
+        if r.random() < 0.4:
+            mid = self.new_fn([self.single_in(vt, tag), one], [u(r.choice(PT))])
+            top_t, top_n = self.fns[-1]["out"][0]["u"], tag + "m"
+            self.ops.append({"op": "provide", "scope": 0, "fn": mid, "name": top_n, "group": "", "as": [], "export": False, "cb": False,
+                             "info": False, "opts": ["name"]})
+        inv = self.new_fn([self.single_in(top_t, top_n)], [])
+        self.ops.append({"op": "invoke", "scope": 0, "fn": inv, "info": False})
+        self.ops.append({"op": "visualize", "scope": 0, "errOf": len(self.ops) - 1})
+        if r.random() < 0.3:
+            self.ops.append({"op": "visualize", "scope": 0, "errOf": -1})
+
     # ---- a long dependency chain of named values: nothing in dig may depend on how long it is
     def op_long_chain(self):
         r = self.r
@@ -1145,6 +1186,9 @@ class Gen:
                 continue
             if r.random() < self.w["longchain"]:
                 self.op_long_chain()
+                continue
+            if r.random() < self.w["dupdep"]:
+                self.op_dup_dep_viz()
                 continue
             if r.random() < self.w["oddkinds"]:
                 self.op_odd_kinds()
